@@ -3,7 +3,7 @@ Each model states the contract it assumes; the list of models a run used is part
 """
 import re
 import z3
-from mir import Unsupported
+from mir import Unsupported, split_top
 from exec import Int, Tup, Adt, Enum, Cell, Ref, BoxRef, copy_val, PathEnd
 
 
@@ -208,6 +208,22 @@ def m_slice_windows(it, callee, args, m):
         it.panics.append(("window size must be non-zero", "slice::windows", it.ctx.ex.solver.model() if it.ctx.ex.check() == z3.sat else None))
         raise PathEnd()
     return SeqIter([SliceRef(sl.vec, sl.lo + i, sl.lo + i + k) for i in range(0, max(0, len(sl) - k + 1))])
+
+
+def m_slice_split(it, callee, args, m):
+    """<[T]>::split(pred): sub-slices separated by elements matching pred (the separators are not included)"""
+    sl = as_slice(args[0])
+    clos = args[1]
+
+    def gen():
+        start = 0
+        n = len(sl)
+        for i in range(n):
+            if call_pred(it, clos, [Ref(sl.vec.elems[sl.lo + i])]):
+                yield SliceRef(sl.vec, sl.lo + start, sl.lo + i)
+                start = i + 1
+        yield SliceRef(sl.vec, sl.lo + start, sl.lo + n)
+    return LazyIter(gen())
 
 
 def m_slice_first(it, callee, args, m):
@@ -487,7 +503,8 @@ def m_chain(it, callee, args, m):
 
 def m_tuple_windows(it, callee, args, m):
     """itertools::Itertools::tuple_windows::<(T, T)>: overlapping pairs of consecutive items (items are cloned)"""
-    if not re.search(r"tuple_windows::<\(\w+, \w+\)>$", callee):
+    tm = re.search(r"tuple_windows::<\((.*)\)>$", callee)
+    if not tm or len(split_top(tm.group(1))) != 2:
         raise Unsupported("tuple_windows of arity != 2")
     inner = to_iter(args[0])
 
@@ -774,6 +791,33 @@ def val_eq(it, a, b):
     raise Unsupported(f"equality of {type(a)} and {type(b)}")
 
 
+def sym_eq(a, b):
+    """structural equality as a z3 term where possible (no forking); None if shapes differ"""
+    a, b = deref(a), deref(b)
+    if isinstance(a, Int) and isinstance(b, Int):
+        return a.t == b.t
+    if z3.is_bool(a) and z3.is_bool(b):
+        return a == b
+    if isinstance(a, Enum) and isinstance(b, Enum):
+        if a.idx != b.idx:
+            return z3.BoolVal(False)
+        parts = [sym_eq(x, y) for x, y in zip(a.fields, b.fields)]
+        return z3.And(*parts) if parts else z3.BoolVal(True)
+    if isinstance(a, Tup) and isinstance(b, Tup):
+        return z3.And(*[sym_eq(x, y) for x, y in zip(a.items, b.items)]) if a.items else z3.BoolVal(True)
+    if isinstance(a, Adt) and isinstance(b, Adt):
+        return z3.And(*[sym_eq(x, y) for x, y in zip(a.fields, b.fields)]) if a.fields else z3.BoolVal(True)
+    raise Unsupported(f"equality of {type(a)} and {type(b)}")
+
+
+def m_partial_eq(it, callee, args, m):
+    return sym_eq(args[0], args[1])
+
+
+def m_partial_ne(it, callee, args, m):
+    return z3.Not(sym_eq(args[0], args[1]))
+
+
 def m_slice_contains(it, callee, args, m):
     sl = as_slice(args[0])
     for i in range(len(sl)):
@@ -824,6 +868,29 @@ def m_to_ascii_uppercase(it, callee, args, m):
     c = deref(args[0])
     t = c.t
     return Int(z3.If(z3.And(z3.UGE(t, 97), z3.ULE(t, 122)), t - 32, t), 32, False)
+
+
+WHITE_SPACE = [(9, 13), (32, 32), (0x85, 0x85), (0xA0, 0xA0), (0x1680, 0x1680), (0x2000, 0x200A), (0x2028, 0x2029),
+               (0x202F, 0x202F), (0x205F, 0x205F), (0x3000, 0x3000)]
+
+
+def m_is_whitespace(it, callee, args, m):
+    """char::is_whitespace: the Unicode White_Space set (25 code points, stable since Unicode 6)"""
+    c = deref(args[0])
+    return z3.Or(*[z3.And(z3.UGE(c.t, lo), z3.ULE(c.t, hi)) for lo, hi in WHITE_SPACE])
+
+
+def m_slice_get_range(it, callee, args, m):
+    sl = as_slice(args[0])
+    r = args[1]
+    lo, hi = r.fields[0], r.fields[1]
+    n = len(sl)
+    ok = z3.And(z3.ULE(lo.t, hi.t), z3.ULE(hi.t, z3.BitVecVal(n, 64)))
+    if not it.ctx.branch(ok):
+        return NONE()
+    lo_c = it.ctx.choose(lo.t, list(range(n + 1)))
+    hi_c = it.ctx.choose(hi.t, list(range(lo_c, n + 1)))
+    return some(SliceRef(sl.vec, sl.lo + lo_c, sl.lo + hi_c))
 
 
 def m_is_ascii_uppercase(it, callee, args, m):
@@ -914,6 +981,98 @@ def m_from_str_radix_u64(it, callee, args, m):
     return Enum("Err", 1, ["ParseIntError"])
 
 
+def m_string_pop(it, callee, args, m):
+    s_ = deref(args[0])
+    if s_.chars:
+        return some(s_.chars.pop())
+    return NONE()
+
+
+def m_string_is_empty(it, callee, args, m):
+    return z3.BoolVal(len(deref(args[0]).chars) == 0)
+
+
+def m_bool_then_some(it, callee, args, m):
+    return some(args[1]) if it.ctx.branch(args[0]) else NONE()
+
+
+def m_find_map(it, callee, args, m):
+    inner, clos = to_iter(args[0]), args[1]
+    while True:
+        x = inner.next(it)
+        if x is None:
+            return NONE()
+        r = it.call_closure(clos, [x])
+        if r.variant == "Some":
+            return r
+
+
+def m_opt_unwrap_or_default(it, callee, args, m):
+    o = args[0]
+    if o.variant == "Some":
+        return o.fields[0]
+    if re.search(r"Option::<(usize|u64|u32|u8)>", callee):
+        return usize(0)
+    raise Unsupported("unwrap_or_default of a non-integer")
+
+
+def m_parse_f64(it, callee, args, m):
+    """str::parse::<f64>: Ok(opaque value) iff the text matches Rust's float grammar
+       [+-]? ( digits [. digits?] | . digits ) ( [eE] [+-]? digits )?   |   [+-]? (inf | infinity | nan)
+    decided character by character by forking; the numeric value itself is not modelled (opaque)."""
+    s_ = deref(args[0])
+    cs = s_.chars
+
+    def is_(c, ch):
+        return it.ctx.branch(c.t == ord(ch))
+
+    def is_any(c, chars):
+        return it.ctx.branch(z3.Or(*[c.t == ord(x) for x in chars]))
+
+    def digit(c):
+        return it.ctx.branch(char_in(c, "0", "9"))
+
+    def err():
+        return Enum("Err", 1, ["ParseFloatError"])
+
+    i, n = 0, len(cs)
+    if n == 0:
+        return err()
+    if is_any(cs[i], "+-"):
+        i += 1
+        if i == n:
+            return err()
+    # inf / infinity / nan (ASCII case-insensitive)
+    rest = cs[i:]
+    for word in ("infinity", "inf", "nan"):
+        if len(rest) == len(word) and all(it.ctx.branch(z3.Or(c.t == ord(w), c.t == ord(w.upper()))) for c, w in zip(rest, word)):
+            return Enum("Ok", 0, [("float-of", "special")])
+    nd = 0
+    while i < n and digit(cs[i]):
+        i += 1
+        nd += 1
+    if i < n and is_(cs[i], "."):
+        i += 1
+        while i < n and digit(cs[i]):
+            i += 1
+            nd += 1
+    if nd == 0:
+        return err()
+    if i < n and is_any(cs[i], "eE"):
+        i += 1
+        if i < n and is_any(cs[i], "+-"):
+            i += 1
+        ne = 0
+        while i < n and digit(cs[i]):
+            i += 1
+            ne += 1
+        if ne == 0:
+            return err()
+    if i != n:
+        return err()
+    return Enum("Ok", 0, [("float-of", "parsed")])
+
+
 def m_result_unwrap(it, callee, args, m):
     r = args[0]
     if r.variant == "Ok":
@@ -934,6 +1093,122 @@ class MapObj:
 
     def __init__(self, entries):
         self.entries = [[k, v if isinstance(v, Cell) else Cell(v)] for k, v in entries]
+
+
+def str_key(x):
+    """a concrete string key (BTreeMap<String, _> keys must be concrete on a path)"""
+    x = deref(x)
+    if isinstance(x, str):
+        return x
+    if isinstance(x, StringObj):
+        out = []
+        for c in x.chars:
+            t = z3.simplify(c.t)
+            if not z3.is_bv_value(t):
+                raise Unsupported("symbolic map key")
+            out.append(chr(t.as_long()))
+        return "".join(out)
+    raise Unsupported(f"map key of {type(x)}")
+
+
+def m_btree_get(it, callee, args, m):
+    mp, key = deref(args[0]), str_key(args[1])
+    for k, c in mp.entries:
+        if str_key(k) == key:
+            return some(Ref(c))
+    return NONE()
+
+
+def m_btree_contains_key(it, callee, args, m):
+    mp, key = deref(args[0]), str_key(args[1])
+    return z3.BoolVal(any(str_key(k) == key for k, c in mp.entries))
+
+
+def m_btree_insert(it, callee, args, m):
+    mp, key = deref(args[0]), args[1]
+    ks = str_key(key)
+    for ent in mp.entries:
+        if str_key(ent[0]) == ks:
+            old = ent[1].v
+            ent[1].v = args[2]
+            return some(old)
+    mp.entries.append([key, Cell(args[2])])
+    mp.entries.sort(key=lambda e: str_key(e[0]))
+    return NONE()
+
+
+def m_btree_remove(it, callee, args, m):
+    mp, key = deref(args[0]), str_key(args[1])
+    for i, ent in enumerate(mp.entries):
+        if str_key(ent[0]) == key:
+            mp.entries.pop(i)
+            return some(ent[1].v)
+    return NONE()
+
+
+def m_btree_iter(it, callee, args, m):
+    mp = deref(args[0])
+    return SeqIter([Tup([Ref(Cell(k)), Ref(c)]) for k, c in mp.entries])
+
+
+def m_btree_values_mut(it, callee, args, m):
+    mp = deref(args[0])
+    return SeqIter([Ref(c) for k, c in mp.entries])
+
+
+def m_btree_new(it, callee, args, m):
+    return MapObj([])
+
+
+def m_opt_flatten(it, callee, args, m):
+    o = args[0]
+    return o.fields[0] if o.variant == "Some" else NONE()
+
+
+def m_string_to_string(it, callee, args, m):
+    x = deref(args[0])
+    if isinstance(x, StringObj):
+        return StringObj([copy_val(c) for c in x.chars])
+    return x
+
+
+def m_string_as_bytes(it, callee, args, m):
+    x = deref(args[0])
+    return VecObj([Int(z3.Extract(7, 0, c.t), 8, False) for c in x.chars])  # ASCII keys only
+
+
+class RecorderHasher:
+    """a std::hash::Hasher that records what is written to it; `finish` is an injective function of the record"""
+    heap = True
+    table = {}
+
+    def __init__(self):
+        self.rec = []
+
+    def finish(self):
+        key = tuple(self.rec)
+        if key not in RecorderHasher.table:
+            RecorderHasher.table[key] = len(RecorderHasher.table) + 1
+        return RecorderHasher.table[key]
+
+
+def concrete_byte(x):
+    t = z3.simplify(deref(x).t)
+    if not z3.is_bv_value(t):
+        raise Unsupported("symbolic byte written to a hasher")
+    return t.as_long()
+
+
+def m_hasher_write(it, callee, args, m):
+    h = deref(args[0])
+    sl = as_slice(args[1])
+    h.rec.append(tuple(concrete_byte(sl.vec.elems[sl.lo + i].v) for i in range(len(sl))))
+    return ()
+
+
+def m_hasher_write_u8(it, callee, args, m):
+    deref(args[0]).rec.append(concrete_byte(args[1]))
+    return ()
 
 
 def m_btree_iter_mut(it, callee, args, m):
@@ -1051,6 +1326,18 @@ def m_fn_call(it, callee, args, m):
     f = deref(args[0])
     tup = args[1]
     return it.call_closure(f, list(tup.items) if isinstance(tup, Tup) else [tup])
+
+
+def m_mem_swap(it, callee, args, m):
+    a, b = args[0], args[1]
+    while isinstance(a, Ref) and isinstance(a.get(), Ref):
+        a = a.get()
+    while isinstance(b, Ref) and isinstance(b.get(), Ref):
+        b = b.get()
+    va, vb = a.get(), b.get()
+    a.set(vb)
+    b.set(va)
+    return ()
 
 
 def m_identity(it, callee, args, m):
@@ -1214,6 +1501,7 @@ MODELS = [
     (r"^<(Vec<.*>|\[.*\]) as (std::ops::)?Index(Mut)?<.*>>::index(_mut)?$", m_index),
     (r"^core::slice::<impl \[.*\]>::iter(_mut)?$", m_slice_iter),
     (r"^core::slice::<impl \[.*\]>::windows$", m_slice_windows),
+    (r"^core::slice::<impl \[.*\]>::split::<", m_slice_split),
     (r"^core::slice::<impl \[.*\]>::first$", m_slice_first),
     (r"^core::slice::<impl \[.*\]>::last$", m_slice_last),
     (r"^core::slice::<impl \[.*\]>::get::<usize>$", m_slice_get),
@@ -1292,8 +1580,30 @@ MODELS = [
     (r"^Box::<.*>::new$", m_box_new),
     (r"^<(Rc|Arc)<.*> as Clone>::clone$", m_identity),
     (r"^<.* as Fn(Mut|Once)?<\(.*\)>>::call(_mut|_once)?$", m_fn_call),
+    (r"^<(Option<.*>|&?char|&?usize|&?u8|&?bool|\(.*\)) as PartialEq(<.*>)?>::eq$", m_partial_eq),
+    (r"^<(Option<.*>|&?char|&?usize|&?u8|&?bool|\(.*\)) as PartialEq(<.*>)?>::ne$", m_partial_ne),
+    (r"^(std|core)::mem::swap::<", m_mem_swap),
+    (r"^<.* as AsRef<str>>::as_ref$|^<.* as AsRef<\[.*\]>>::as_ref$|^<str as Borrow<str>>::borrow$", m_identity),
     (r"^<.* as Clone>::clone$", m_clone),
     (r"^<&mut BTreeMap<.*> as IntoIterator>::into_iter$", m_btree_iter_mut),
+    (r"^<&BTreeMap<.*> as IntoIterator>::into_iter$|^BTreeMap::<.*>::iter$", m_btree_iter),
+    (r"^BTreeMap::<.*>::get::<", m_btree_get),
+    (r"^BTreeMap::<.*>::contains_key::<", m_btree_contains_key),
+    (r"^BTreeMap::<.*>::insert$", m_btree_insert),
+    (r"^BTreeMap::<.*>::remove::<", m_btree_remove),
+    (r"^BTreeMap::<.*>::values(_mut)?$", m_btree_values_mut),
+    (r"^BTreeMap::<.*>::keys$", lambda it, c, a, m: SeqIter([Ref(Cell(k)) for k, _c in deref(a[0]).entries])),
+    (r"^BTreeMap::<.*>::len$", lambda it, c, a, m: usize(len(deref(a[0]).entries))),
+    (r"^<btree_map::(Values|Keys)<.*> as Iterator>::next$", m_next),
+    (r"^<btree_map::(Values|Keys)<.*> as IntoIterator>::into_iter$", m_identity),
+    (r"^BTreeMap::<.*>::new$|^<BTreeMap<.*> as Default>::default$", m_btree_new),
+    (r"^<btree_map::(Iter|ValuesMut|IterMut)<.*> as Iterator>::next$", m_next),
+    (r"^<btree_map::(Iter|ValuesMut|IterMut)<.*> as IntoIterator>::into_iter$", m_identity),
+    (r"^Option::<Option<.*>>::flatten$", m_opt_flatten),
+    (r"^<(std::string::)?String as ToString>::to_string$|^<impl ToString as ToString>::to_string$|^<str as ToString>::to_string$", m_string_to_string),
+    (r"^(std::string::)?String::as_bytes$|^core::str::<impl str>::as_bytes$", m_string_as_bytes),
+    (r"^<.* as Hasher>::write$", m_hasher_write),
+    (r"^<.* as Hasher>::write_u8$", m_hasher_write_u8),
     (r"^<btree_map::IterMut<.*> as Iterator>::next$", m_next),
     (r"^LruCache::<.*>::get::<", m_lru_get),
     (r"^LruCache::<.*>::put$", m_lru_put),
@@ -1302,6 +1612,8 @@ MODELS = [
     (r"^Vec::<.*>::append$", m_vec_append),
     (r"^<&(mut )?Vec<.*> as IntoIterator>::into_iter$", lambda it, c, a, m: SeqIter(slice_refs(as_slice(a[0])))),
     (r"^<std::slice::IterMut<'_, .*> as Iterator>::next$", m_next),
+    (r"^(core::)?char::methods::<impl char>::is_whitespace$", m_is_whitespace),
+    (r"^core::slice::<impl \[.*\]>::get::<(std::ops::)?Range<usize>>$", m_slice_get_range),
     (r"^(core::)?char::methods::<impl char>::eq_ignore_ascii_case$", m_eq_ignore_ascii_case),
     (r"^(core::)?char::methods::<impl char>::to_ascii_lowercase$", m_to_ascii_lowercase),
     (r"^(core::)?char::methods::<impl char>::to_ascii_uppercase$", m_to_ascii_uppercase),
@@ -1317,6 +1629,13 @@ MODELS = [
     (IT + r"::collect::<(std::string::)?String>$", m_collect_string),
     (r"^<(std::string::)?String as Deref>::deref$", m_string_deref),
     (r"^(std::string::)?String::len$", m_string_len),
+    (r"^(std::string::)?String::pop$", m_string_pop),
+    (r"^(std::string::)?String::is_empty$", m_string_is_empty),
+    (r"^core::str::<impl str>::parse::<f64>$", m_parse_f64),
+    (r"^core::bool::<impl bool>::then_some::<", m_bool_then_some),
+    (IT + r"::find_map::<", m_find_map),
+    (r"^Option::<.*>::unwrap_or_default$", m_opt_unwrap_or_default),
+    (r"^<f64 as Into<OrderedFloat<f64>>>::into$", lambda it, c, a, m: Adt("OrderedFloat", [a[0]])),
     (r"^core::num::<impl u64>::from_str_radix$", m_from_str_radix_u64),
     (r"^Result::<.*>::(unwrap|expect)$", m_result_unwrap),
     (r"^Result::<.*>::ok$", m_result_ok),
